@@ -227,7 +227,7 @@ func deriveContracts(
 		// b ends with a return
 		ret := retInstr.Results[0]
 		tables := newNilnessTableSet()
-		if r, ok := nilnessTableSetByBB[retInstr.Block()]; ok {
+		if r, ok := nilnessTableSetByBB[retInstr.Block()]; ok && len(r) != 0 {
 			tables = r
 		} else {
 			tables, _ = add(tables, nilnessTable{})
